@@ -342,16 +342,64 @@ func ShapeExtension(s Shape) *d.Node {
 				"unknown": "1.2.3.4.5.6", "apple": "1.2.840.113635.100.4.1", "ms": "1.3.6.1.4.1.311.10.3.3"}[t]))
 		}
 		return d.Ext("2.5.29.37", false, d.Seq(oids...))
+	case "names":
+		var gns []*d.Node
+		for _, t := range item(1) {
+			gns = append(gns, collisionName(t))
+		}
+		return d.Ext("2.5.29.17", false, d.Seq(gns...))
 	case "subject":
 		return nil
 	}
 	panic("inputs: unknown shape extension " + s.X)
 }
 
+// collisionName: general names that are distinct as bytes but equal under a plausible
+// normalisation (InputsCert!NameVar).
+func collisionName(tok string) *d.Node {
+	switch tok {
+	case "base", "dup":
+		return d.CtxPrim(2, []byte("host.example.com"))
+	case "upper":
+		return d.CtxPrim(2, []byte("HOST.EXAMPLE.COM"))
+	case "m1":
+		return d.CtxPrim(2, []byte("Host.example.com"))
+	case "m2":
+		return d.CtxPrim(2, []byte("hOST.example.com"))
+	case "m3":
+		return d.CtxPrim(2, []byte("host.Example.com"))
+	case "m4":
+		return d.CtxPrim(2, []byte("host.example.COM"))
+	case "dot":
+		return d.CtxPrim(2, []byte("host.example.com."))
+	case "uri-base":
+		return d.CtxPrim(6, []byte("https://host.example.com/p"))
+	case "uri-upper":
+		return d.CtxPrim(6, []byte("HTTPS://HOST.EXAMPLE.COM/p"))
+	case "email-base":
+		return d.CtxPrim(1, []byte("user@host.example.com"))
+	case "email-upper":
+		return d.CtxPrim(1, []byte("USER@HOST.EXAMPLE.COM"))
+	case "ip-text":
+		return d.CtxPrim(2, []byte("192.0.2.1"))
+	case "ip":
+		return d.CtxPrim(7, []byte{192, 0, 2, 1})
+	}
+	panic("inputs: unknown name-collision token " + tok)
+}
+
 // shapeSubject returns the subject RDNSequence of a "subject" shape.
 func shapeSubject(tok string) *d.Node {
 	atv := func(oid string, v *d.Node) *d.Node { return d.Set(d.Seq(d.OID(oid), v)) }
 	switch tok {
+	case "base":
+		return d.Seq(atv("2.5.4.3", d.UTF8("host.example.com")))
+	case "upper":
+		return d.Seq(atv("2.5.4.3", d.UTF8("HOST.EXAMPLE.COM")))
+	case "dot":
+		return d.Seq(atv("2.5.4.3", d.UTF8("host.example.com.")))
+	case "":
+		return d.Seq(atv("2.5.4.10", d.UTF8("no common name")))
 	case "cn-only":
 		return d.Seq(atv("2.5.4.3", d.UTF8("host.example.com")))
 	case "empty":
@@ -388,7 +436,7 @@ func BuildShapeCert(s Shape) []byte {
 		DNS: []string{"shape.example.com"}}
 	ext := ShapeExtension(s)
 	if ext != nil {
-		if s.X == "san" {
+		if s.X == "san" || s.X == "names" {
 			c.DNS = nil
 		}
 		t := pki.Template(c)
@@ -400,9 +448,16 @@ func BuildShapeCert(s Shape) []byte {
 		if err != nil {
 			panic(fmt.Sprintf("inputs: shape %s: %v", s, err))
 		}
-		return der
+		if s.X != "names" {
+			return der
+		}
+		// name-collision shapes also set the subject (item 0: the CN variant, or none)
+		return replaceSubject(der, s)
 	}
-	der := pki.MustBuild(c)
+	return replaceSubject(pki.MustBuild(c), s)
+}
+
+func replaceSubject(der []byte, s Shape) []byte {
 	root := must(d.Parse(der))
 	subj := d.Resolve(root, []string{"0", "v4"})
 	tok := ""
